@@ -4,6 +4,7 @@ package main
 
 import (
 	"fmt"
+	"strings"
 	"go/token"
 	"go/types"
 	"math/big"
@@ -30,29 +31,56 @@ func (ex *Exec) keySort(mt *types.Map) Sort {
 func (ex *Exec) keyTerm(mt *types.Map, k Value) Term { return ex.scalarOf(k) }
 
 // mapLookup returns (value, present) in state st.
+// val[m][k] is *defined* as the result of the Go expression m[k]: for an absent key (and for the nil
+// map, ref 0) that is the zero value. This well-formedness fact is assumed for every heap version a
+// lookup reads (mapWF); MakeMap, MapUpdate and delete preserve it by construction.
 func (ex *Exec) mapLookup(st *State, mt *types.Map, m Term, k Value) (Value, Term) {
 	ks := ex.keySort(mt)
 	base := mapKeyBase(mt)
 	kt := ex.keyTerm(mt, k)
 	dom := ex.heapGetIn(st, base+"#dom", ArrSort(SInt, ArrSort(ks, SBool)))
-	ok := And(Not(Eq(m, I(0))), Sel(Sel(dom, m), kt))
-	ok = ex.vc.Define("has", ok)
+	ex.mapWF(mt, dom, Term{}, "", m)
+	ok := Sel(Sel(dom, m), kt)
 	var ts []Term
-	for _, l := range leavesOf(mt.Elem()) {
+	zs := ex.flatten(ex.zeroValue(mt.Elem()))
+	for i, l := range leavesOf(mt.Elem()) {
 		ls := leafSortFix(ex, l)
 		h := ex.heapGetIn(st, base+"#val"+l.path, ArrSort(SInt, ArrSort(ks, ls)))
+		ex.mapWF(mt, dom, h, zs[i].S, m)
 		ts = append(ts, Sel(Sel(h, m), kt))
 	}
-	val := ex.unflatten(mt.Elem(), &ts)
-	z := ex.zeroValue(mt.Elem())
-	if _, isPtr := val.(PtrV); isPtr {
-		z = PtrV{Kind: pObj, Ref: I(0), Root: val.(PtrV).Root}
-	}
-	res := ex.mergeValues([]Term{ok, Not(ok)}, []Value{val, z}, "mv")
+	res := ex.unflatten(mt.Elem(), &ts)
 	if st == ex.st {
 		ex.assumeLoaded(res, mt.Elem(), st.pc)
 	}
 	return res, ok
+}
+
+// mapWF assumes, once per (heap version, map ref): no key in the nil map; absent keys map to zero.
+func (ex *Exec) mapWF(mt *types.Map, dom, val Term, zero string, m Term) {
+	if strings.Contains(dom.S, "!q") || strings.Contains(val.S, "!q") || strings.Contains(m.S, "!q") {
+		return // not closed (inside a quantifier over maps): no axiom
+	}
+	ks := ex.keySort(mt)
+	key := dom.S + "|" + val.S + "|" + m.S
+	if ex.mapWFDone == nil {
+		ex.mapWFDone = map[string]bool{}
+	}
+	if ex.mapWFDone[key] {
+		return
+	}
+	ex.mapWFDone[key] = true
+	save := ex.vc.inQuant
+	ex.vc.inQuant = 0
+	defer func() { ex.vc.inQuant = save }()
+	ex.vc.fresh++
+	q := fmt.Sprintf("k!q%d", ex.vc.fresh)
+	if val.S == "" {
+		ex.vc.AssumeRaw(fmt.Sprintf("(forall ((%s %s)) (! (not (select (select %s 0) %s)) :pattern ((select (select %s 0) %s))))", q, ks, dom.S, q, dom.S, q), "the nil map has no keys")
+		return
+	}
+	ex.vc.AssumeRaw(fmt.Sprintf("(forall ((%s %s)) (! (=> (not (select (select %s %s) %s)) (= (select (select %s %s) %s) %s)) :pattern ((select (select %s %s) %s))))",
+		q, ks, dom.S, m.S, q, val.S, m.S, q, zero, val.S, m.S, q), "m[k] is the zero value for an absent key")
 }
 
 func (ex *Exec) mapLen(st *State, mt *types.Map, m Term) Term {
@@ -92,6 +120,10 @@ func (ex *Exec) mapDelete(mt *types.Map, m Term, k Value) {
 	was := And(Not(Eq(m, I(0))), Sel(Sel(dom, m), kt))
 	ex.hStore1(cardKey, ArrSort(SInt, SInt), m, Ite(was, Sub(Sel(card, m), I(1)), Sel(card, m)))
 	ex.hStore2(domKey, ArrSort(SInt, ArrSort(ks, SBool)), m, kt, TFalse)
+	zs := ex.flatten(ex.zeroValue(mt.Elem()))
+	for i, l := range leavesOf(mt.Elem()) {
+		ex.hStore2(base+"#val"+l.path, ArrSort(SInt, ArrSort(ks, leafSortFix(ex, l))), m, kt, zs[i])
+	}
 }
 
 func (ex *Exec) mapInitEmpty(mt *types.Map, r Term) {
@@ -104,9 +136,21 @@ func (ex *Exec) mapInitEmpty(mt *types.Map, r Term) {
 	ex.hStoreRow(domKey, ArrSort(SInt, ArrSort(ks, SBool)), r, empty)
 	cardKey := base + "#card"
 	ex.hStore1(cardKey, ArrSort(SInt, SInt), r, I(0))
-	// make sure value arrays exist so that loops havoc them
-	for _, l := range leavesOf(mt.Elem()) {
-		ex.heapGet(base+"#val"+l.path, ArrSort(SInt, ArrSort(ks, leafSortFix(ex, l))))
+	// a new map maps every key to the zero value
+	zs := ex.flatten(ex.zeroValue(mt.Elem()))
+	for i, l := range leavesOf(mt.Elem()) {
+		ls := leafSortFix(ex, l)
+		rs := ArrSort(ks, ls)
+		var row Term
+		if ls == SInt || ls == SBool || ls == SReal {
+			row = Term{fmt.Sprintf("((as const %s) %s)", rs, zs[i].S), rs}
+		} else {
+			row = ex.vc.Fresh("zerovals", rs)
+			ex.vc.fresh++
+			q := fmt.Sprintf("k!q%d", ex.vc.fresh)
+			ex.vc.AssumeRaw(fmt.Sprintf("(forall ((%s %s)) (! (= (select %s %s) %s) :pattern ((select %s %s))))", q, ks, row.S, q, zs[i].S, row.S, q), "new map: zero values")
+		}
+		ex.hStoreRow(base+"#val"+l.path, ArrSort(SInt, rs), r, row)
 	}
 }
 
@@ -171,14 +215,15 @@ func (ex *Exec) rangeNext(x *ssa.Next) Value {
 	k := ex.vc.Fresh("next.k", ks)
 	dom := ex.heapGet(base+"#dom", ArrSort(SInt, ArrSort(ks, SBool)))
 	vis := ex.st.heap[rs.visited]
-	inDom := And(Not(Eq(rs.m, I(0))), Sel(Sel(dom, rs.m), k))
+	inDom := Sel(Sel(dom, rs.m), k)
 	ex.vc.Assume(ex.st.pc, Implies(ok, And(inDom, Not(Sel(vis, k)))), "range yields an unvisited key of the map")
 	// exhausted: every key of the map has been visited
 	ex.vc.fresh++
 	q := fmt.Sprintf("k!q%d", ex.vc.fresh)
-	ex.vc.Assume(ex.st.pc, Implies(Not(ok), Term{fmt.Sprintf("(forall ((%s %s)) (! (=> (and (not (= %s 0)) (select (select %s %s) %s)) (select %s %s)) :pattern ((select (select %s %s) %s))))",
-		q, ks, rs.m.S, dom.S, rs.m.S, q, vis.S, q, dom.S, rs.m.S, q), SBool}), "range ends when all keys were visited")
+	ex.vc.Assume(ex.st.pc, Implies(Not(ok), Term{fmt.Sprintf("(forall ((%s %s)) (! (=> (select (select %s %s) %s) (select %s %s)) :pattern ((select (select %s %s) %s))))",
+		q, ks, dom.S, rs.m.S, q, vis.S, q, dom.S, rs.m.S, q), SBool}), "range ends when all keys were visited")
 	ex.st.heap[rs.visited] = ex.vc.Define("vis", Ite(ok, Sto(vis, k, TTrue), vis))
+	ex.noteHeapWrite(rs.visited)
 	var kv Value = Sc{k}
 	val, _ := ex.mapLookup(ex.st, mt, rs.m, kv)
 	return TupleV{Sc{ok}, kv, val}
